@@ -69,6 +69,58 @@ def err_signature(msg):
     return m[:80]
 
 
+def walk_fields(doc, super_types):
+    """yield (root field name, 'Type.field') for every field selection of the operation (fragments followed)"""
+    types = {t["name"]: t for t in super_types}
+    frags = {f["name"]: f for f in doc["frags"]}
+    out = []
+
+    def rec(sels, tn, root):
+        for s in sels:
+            if s["k"] == "f":
+                r = root or s["name"]
+                if s["name"] == "__typename":
+                    continue
+                out.append((r, "%s.%s" % (tn, s["name"])))
+                fd = next((f for f in types[tn]["fields"] if f["name"] == s["name"]), None) if tn in types else None
+                if fd is not None and s["sel"]:
+                    rec(s["sel"], fd["type"]["n"], r)
+            elif s["k"] == "i":
+                rec(s["sel"], s["on"] or tn, root)
+            else:
+                fr = frags[s["name"]]
+                rec(fr["sel"], fr["on"], root)
+    rec(doc["sel"], "Query", None)
+    return out
+
+
+def differing_roots(case, got, want):
+    """root FIELD names whose value differs between the observed and the expected data"""
+    keymap = {}
+    for s in case["doc"]["sel"]:
+        if s["k"] == "f":
+            keymap[s["alias"] or s["name"]] = s["name"]
+    if not isinstance(got, dict) or not isinstance(want, dict):
+        return sorted(set(keymap.values()))
+    return sorted({keymap.get(k, k) for k in set(got) | set(want) if got.get(k, "<absent>") != want.get(k, "<absent>")})
+
+
+# Shapes of the inputs that hit the known (open) findings, see findings.d/C01.json. A violation whose input has one of
+# these shapes gets the finding's key; every other violation keeps a key of its own (entry : class : operation hash).
+def finding_shape(entry, cls, case, r, exp, super_types):
+    fields = walk_fields(case["doc"], super_types)
+    if entry["name"] == "keys" and cls == "plan-error" and "failed to obtain planning paths" in (r.get("engineErr") or ""):
+        under_top = {c for root, c in fields if root == "top"}
+        if "Product.stock" in under_top and under_top & {"Product.sku", "Product.pkg"}:
+            return "keys:plan-error:key-chain-plus-selected-field-of-the-next-key"
+    if entry["name"] == "deep" and cls in ("data", "errors") and r.get("hasData"):
+        roots = differing_roots(case, canon(r["data"]), canon(exp["data"]))
+        under_grid = {c for root, c in fields if root == "grid"}
+        if roots == ["grid"] and under_grid & {"Book.title", "Book.authors"}:
+            return "deep:data:entities-in-a-list-of-lists-are-never-fetched"
+    return None
+
+
 def calibrate(ctx, binary):
     total = 0
     for path, allowed in CAL_CONFIGS:
@@ -88,44 +140,42 @@ def calibrate(ctx, binary):
 
 
 def load_catalog(ctx):
-    r = ctx.tlc_must_pass("fed", "Gen_Catalog", "Gen_Catalog.cfg", workers=1, timeout=300, tag="catalog-sanity+emit")
-    entries = r.printed
+    r = ctx.tlc_must_pass("fed", "Gen_Catalog", "Gen_Catalog.cfg", workers=1, timeout=600, tag="catalog-sanity+emit")
+    entries = [p for p in r.printed if "sgs" in p]
+    pinned = [p for p in r.printed if "doc" in p]
     if not entries:
         raise lib.Inconclusive("Gen_Catalog printed nothing")
+    for c in pinned:
+        c["id"] = lib.sha([c["entry"], c["doc"], c["vars"]])[:14]
     path = ctx.path("catalog.ndjson")
     lib.write_ndjson(path, entries)
-    return entries, path
+    return entries, path, pinned
 
 
 def generate(ctx, entries, quick):
-    """returns {entry name: {"bfs": [...], "sim": [...]}} de-duplicated by case id"""
-    jobs = []
-    for i, e in enumerate(entries):
-        idx = i + 1
-        jobs.append((e["name"], "bfs", dict(module="Gen_C01", cfg="Gen_C01.cfg", workers=2, env=gen_env(idx, GEN_BFS if quick else GEN_BFS_T),
-                                              timeout=1500, deadlock=False, tag="gen-bfs-%s" % e["name"])))
-        jobs.append((e["name"], "sim", dict(module="Gen_C01", cfg="Gen_C01.cfg", workers=1, env=gen_env(idx, GEN_SIM), simulate=250 if quick else 4000,
-                                              depth=80, seed=ctx.seed, timeout=1500, deadlock=False, tag="gen-sim-%s" % e["name"])))
-        if not quick:
-            jobs.append((e["name"], "sim", dict(module="Gen_C01", cfg="Gen_C01.cfg", workers=1, env=gen_env(idx, GEN_SIM_DEEP), simulate=2000,
-                                                  depth=80, seed=ctx.seed + 1000, timeout=1500, deadlock=False, tag="gen-simdeep-%s" % e["name"])))
+    """returns {entry name: {"bfs": {id: case}, "sim": {id: case}}} de-duplicated by case id.
+    One TLC run per mode; the catalog entry is chosen by the initial state (C01_ENTRY=0)."""
+    jobs = [("bfs", dict(workers=6, env=gen_env(0, GEN_BFS if quick else GEN_BFS_T), timeout=2400, deadlock=False, tag="gen-bfs")),
+            ("sim", dict(workers=1, env=gen_env(0, GEN_SIM), simulate=(260 if quick else 4000) * len(entries), depth=80, seed=ctx.seed,
+                         timeout=2400, deadlock=False, tag="gen-sim"))]
+    if not quick:
+        jobs.append(("sim", dict(workers=1, env=gen_env(0, GEN_SIM_DEEP), simulate=2000 * len(entries), depth=80, seed=ctx.seed + 1000,
+                                 timeout=2400, deadlock=False, tag="gen-sim-deep")))
     out = {e["name"]: {"bfs": {}, "sim": {}} for e in entries}
 
     def one(job):
-        name, kind, kw = job
-        kw = dict(kw)
-        module, cfg = kw.pop("module"), kw.pop("cfg")
-        r = ctx.tlc("fed", module, cfg, **kw)
+        kind, kw = job
+        r = ctx.tlc("fed", "Gen_C01", "Gen_C01.cfg", **kw)
         if not r.ok:
             print(r.out[-3000:])
-            raise lib.Inconclusive("generator failed for entry %s (%s): %s" % (name, kind, r.error))
-        return name, kind, r.printed
+            raise lib.Inconclusive("generator failed (%s): %s" % (kind, r.error))
+        return kind, r.printed
 
-    with concurrent.futures.ThreadPoolExecutor(max_workers=6 if quick else 8) as ex:
-        for name, kind, printed in ex.map(one, jobs):
+    with concurrent.futures.ThreadPoolExecutor(max_workers=3) as ex:
+        for kind, printed in ex.map(one, jobs):
             for c in printed:
                 c["id"] = lib.sha([c["entry"], c["doc"], c["vars"]])[:14]
-                out[name][kind].setdefault(c["id"], c)
+                out[c["entry"]][kind].setdefault(c["id"], c)
     return out
 
 
@@ -156,46 +206,53 @@ def validate_chunk(ctx, lines, n):
     return bad
 
 
-def decide_and_validate(ctx, cases_by_id, results, entry_index, quick, rng):
+def decide_and_validate(ctx, cases_by_id, results, entry_index, entries, quick, rng):
     """python-side decision + TLC validation. Returns counters."""
-    viol = 0
+    by_name = {e["name"]: e for e in entries}
+    flagged = {}   # (id, u) -> class, flagged by the python comparison
+
+    def report(r, c, cls, what, replay, sub=""):
+        e = by_name[r["entry"]]
+        exp = c["exp"][r["u"]]
+        key = finding_shape(e, cls, c, r, exp, e["super"]) or "%s:%s:%s%s" % (r["entry"], cls, sub, op_hash(c))
+        ctx.violation(key, what, replay)
+
     # ---- 5. decide -------------------------------------------------------------------------------
     for r in results:
         c = cases_by_id[r["id"]]
         exp = c["exp"][r["u"]]
-        oph = op_hash(c)
-        base = "%s:%s" % (r["entry"], "u%d" % r["u"])
+        q1 = " ".join(r["query"].split())
         replay = {"case": {k: c[k] for k in ("id", "entry", "doc", "vars", "exp")}, "universe": r["u"], "query": r["query"],
                   "variables": r["varsJson"], "observed": {k: r.get(k) for k in ("engineErr", "panic", "body", "badBody")},
                   "expected": {"data": canon(exp["data"]), "hasErrors": exp["err"]},
                   "exchanges": [{k: x.get(k) for k in ("sgName", "query", "vars", "resp", "invalid")} for x in r["exchanges"]]}
         if r.get("panic"):
-            viol += ctx.violation("%s:panic:%s" % (r["entry"], oph), "panic while executing a valid operation: %s | %s" % (r["panic"][:300], r["query"]), replay)
+            flagged[(r["id"], r["u"])] = "panic"
+            report(r, c, "panic", "panic while executing a valid operation: %s | %s" % (r["panic"][:300], q1), replay)
             continue
         if r.get("engineErr"):
-            viol += ctx.violation("%s:plan-error:%s:%s" % (r["entry"], err_signature(r["engineErr"]), oph),
-                                  "Execute failed for a valid operation on a composable layout: %s | query: %s | vars: %s" % (
-                                      r["engineErr"][:300], " ".join(r["query"].split()), r["varsJson"]), replay)
+            flagged[(r["id"], r["u"])] = "plan-error"
+            report(r, c, "plan-error", "Execute failed for a valid operation on a composable layout: %s | query: %s | vars: %s" % (
+                r["engineErr"][:300], q1, r["varsJson"]), replay, sub=err_signature(r["engineErr"]) + ":")
             continue
         if r.get("badBody") or not r["hasData"]:
-            viol += ctx.violation("%s:no-data:%s" % (r["entry"], oph), "response has no data member / is not a JSON object: %s | %s" % (
-                r["body"][:300], " ".join(r["query"].split())), replay)
+            flagged[(r["id"], r["u"])] = "no-data"
+            report(r, c, "no-data", "response has no data member / is not a JSON object: %s | %s" % (r["body"][:300], q1), replay)
             continue
         for x in r["exchanges"]:
             if x.get("invalid"):
-                viol += ctx.violation("%s:invalid-subgraph-request:%s:%s" % (r["entry"], x["sgName"], oph),
-                                      "request to subgraph %s is not a valid operation of that subgraph's schema (gqlparser): %s | request: %s | client query: %s" % (
-                                          x["sgName"], x["invalid"][:300], x["query"][:500], " ".join(r["query"].split())), replay)
+                report(r, c, "invalid-subgraph-request",
+                       "request to subgraph %s is not a valid operation of that subgraph's schema (gqlparser): %s | request: %s | client query: %s" % (
+                           x["sgName"], x["invalid"][:300], x["query"][:500], q1), replay, sub=x["sgName"] + ":")
         if canon(r["data"]) != canon(exp["data"]):
-            viol += ctx.violation("%s:data:%s" % (r["entry"], oph),
-                                  "data differs from the monolith in universe %d: got %s want %s | query: %s | vars: %s" % (
-                                      r["u"], json.dumps(canon(r["data"]))[:400], json.dumps(canon(exp["data"]))[:400],
-                                      " ".join(r["query"].split()), r["varsJson"]), replay)
+            flagged[(r["id"], r["u"])] = "data"
+            report(r, c, "data", "data differs from the monolith in universe %d: got %s want %s | query: %s | vars: %s" % (
+                r["u"], json.dumps(canon(r["data"]))[:400], json.dumps(canon(exp["data"]))[:400], q1, r["varsJson"]), replay)
         elif r["hasErrors"] != exp["err"]:
-            viol += ctx.violation("%s:errors:%s" % (r["entry"], oph),
-                                  "errors %s but the monolith %s (universe %d) | query: %s | vars: %s | errors: %s" % (
-                                      "reported" if r["hasErrors"] else "not reported", "reports errors" if exp["err"] else "reports none",
-                                      r["u"], " ".join(r["query"].split()), r["varsJson"], (r.get("errors") or "")[:300]), replay)
+            flagged[(r["id"], r["u"])] = "errors"
+            report(r, c, "errors", "errors %s but the monolith %s (universe %d) | query: %s | vars: %s | errors: %s" % (
+                "reported" if r["hasErrors"] else "not reported", "reports errors" if exp["err"] else "reports none",
+                r["u"], q1, r["varsJson"], (r.get("errors") or "")[:300]), replay)
     # ---- 6. TLC validation -----------------------------------------------------------------------
     lines = []
     meta = []
@@ -229,26 +286,33 @@ def decide_and_validate(ctx, cases_by_id, results, entry_index, quick, rng):
             for lineno, verdict in fu.result():
                 bad_total.append((ch[lineno - 1], verdict))
     sim_mismatch = []
+    tlc_flagged = set()
     for gi, verdict in bad_total:
         kind, r, x = meta[gi]
         c = cases_by_id[r["id"]]
-        oph = op_hash(c)
+        q1 = " ".join(r["query"].split())
         if kind == "c":
+            tlc_flagged.add((r["id"], r["u"]))
+            if (r["id"], r["u"]) in flagged:
+                continue   # already reported by the comparison against the generated expectation
             # TLC re-evaluated Exec(Mono..) on the observed response: [data equal, error presence equal]
             what = "TLC: observed response is not Exec(monolith): data_ok=%s errors_ok=%s | universe %d | query: %s | vars: %s | body: %s" % (
-                verdict[0], verdict[1], r["u"], " ".join(r["query"].split()), r["varsJson"], r["body"][:300])
-            viol += ctx.violation("%s:%s:%s" % (r["entry"], "data" if not verdict[0] else "errors", oph), what,
-                                  {"case": c, "universe": r["u"], "observed": r["body"], "tlc_verdict": verdict})
+                verdict[0], verdict[1], r["u"], q1, r["varsJson"], r["body"][:300])
+            report(r, c, "data" if not verdict[0] else "errors", what, {"case": c, "universe": r["u"], "observed": r["body"], "tlc_verdict": verdict})
         else:
             req_ok, data_ok, err_ok = verdict
             if not req_ok:
                 what = ("TLC: RequestOK is false for a request the gateway sent to subgraph %s (not valid for the subgraph's own schema, "
                         "or asks for a field it cannot resolve there, or a representation lacks a resolvable key / @requires input) | request: %s | variables: %s | client query: %s") % (
-                    x["sgName"], x["query"][:600], json.dumps(x["vars"])[:400], " ".join(r["query"].split()))
-                viol += ctx.violation("%s:request-not-ok:%s:%s" % (r["entry"], x["sgName"], oph), what,
-                                      {"case": c, "universe": r["u"], "exchange": {k: x.get(k) for k in ("sgName", "query", "vars", "resp")}})
+                    x["sgName"], x["query"][:600], json.dumps(x["vars"])[:400], q1)
+                report(r, c, "request-not-ok", what,
+                       {"case": c, "universe": r["u"], "exchange": {k: x.get(k) for k in ("sgName", "query", "vars", "resp")}}, sub=x["sgName"] + ":")
             if not (data_ok and err_ok):
                 sim_mismatch.append((r, x, verdict))
+    # the two judges (python comparison with the generated expectation, TLC on the recorded line) must agree
+    for k, cls in flagged.items():
+        if cls in ("data", "errors") and k not in tlc_flagged:
+            raise lib.Inconclusive("python comparison flagged case %s/u%d (%s) but TLC accepted the recorded observation — harness problem" % (k[0], k[1], cls))
     if sim_mismatch:
         r, x, verdict = sim_mismatch[0]
         print("simulator answer differs from the spec's re-derivation:", x["sgName"], x["query"], json.dumps(x["vars"]), "->", json.dumps(x["resp"]), verdict)
@@ -264,7 +328,22 @@ def run_driver(ctx, binary, catalog_path, cases, tag):
     return lib.read_ndjson(rp)
 
 
+def load_findings_fragment(ctx):
+    """findings.d/C01.json is this check's own fragment of known-findings.json (merged by the coordinator); read it
+    directly as well so that the check behaves the same before and after the merge."""
+    frag = os.path.join(lib.VERIF, "findings.d", "C01.json")
+    known = list(ctx.known())
+    have = {(k.get("property"), k.get("key")) for k in known}
+    if os.path.exists(frag):
+        with open(frag) as f:
+            for k in json.load(f):
+                if (k.get("property"), k.get("key")) not in have:
+                    known.append(k)
+    ctx._known = known
+
+
 def run(ctx):
+    load_findings_fragment(ctx)
     rng = random.Random(ctx.seed)
     quick = ctx.quick()
     binary = ctx.build("fed")
@@ -273,20 +352,20 @@ def run(ctx):
         with open(ctx.replay_in) as f:
             rep = json.load(f)
         case = rep["case"]["case"] if "case" in rep["case"] else rep["case"]
-        entries, catalog_path = load_catalog(ctx)
+        entries, catalog_path, _ = load_catalog(ctx)
         entry_index = {e["name"]: i + 1 for i, e in enumerate(entries)}
         results = run_driver(ctx, binary, catalog_path, [case], "replay")
         for r in results:
             print("universe %d: %s" % (r["u"], (r.get("engineErr") or r["body"])[:1000]))
             for x in r["exchanges"]:
                 print("    %s <- %s %s" % (x["sgName"], x["query"], json.dumps(x["vars"])))
-        decide_and_validate(ctx, {case["id"]: case}, results, entry_index, quick, rng)
+        decide_and_validate(ctx, {case["id"]: case}, results, entry_index, entries, quick, rng)
         ctx.coverage.update({"traces_validated_against_impl": len(results), "evaluations": len(results), "exhaustive": False})
         return
     # ---- 0. calibration ---------------------------------------------------------------------------
     ncal = calibrate(ctx, binary)
     # ---- 1. catalog -------------------------------------------------------------------------------
-    entries, catalog_path = load_catalog(ctx)
+    entries, catalog_path, pinned = load_catalog(ctx)
     entry_index = {e["name"]: i + 1 for i, e in enumerate(entries)}
     # ---- 2. model check the nondeterministic federated executor ----------------------------------
     mc = ctx.tlc_must_pass("fed", "FedNondet", "MC_FedNondet.cfg", workers=8, timeout=1500, tag="mc-fednondet")
@@ -296,18 +375,20 @@ def run(ctx):
                                "from the monolith (non-vacuity of FedRefinesMonolith), got %r" % neg.error)
     # ---- 3. generate ------------------------------------------------------------------------------
     gen = generate(ctx, entries, quick)
-    cases = []
-    stats = {}
+    cases = list(pinned)
+    stats = {"pinned": len(pinned)}
     for e in entries:
         g = gen[e["name"]]
         bfs = list(g["bfs"].values())
-        sim = [c for cid, c in g["sim"].items() if cid not in g["bfs"]]
+        have = {c["id"] for c in pinned}
+        bfs = [c for c in bfs if c["id"] not in have]
+        sim = [c for cid, c in g["sim"].items() if cid not in g["bfs"] and cid not in have]
         nb, ns = len(bfs), len(sim)
         if quick:
             rng.shuffle(bfs)
             rng.shuffle(sim)
-            bfs = bfs[:260]
-            sim = sim[:260]
+            bfs = bfs[:190]
+            sim = sim[:190]
         stats[e["name"]] = {"bfs_generated": nb, "sim_generated": ns, "replayed": len(bfs) + len(sim)}
         cases += bfs + sim
     ctx.log("cases: %s" % json.dumps(stats))
@@ -315,7 +396,7 @@ def run(ctx):
     # ---- 4. replay --------------------------------------------------------------------------------
     results = run_driver(ctx, binary, catalog_path, cases, "all")
     # ---- 5./6. decide + validate ------------------------------------------------------------------
-    nlines, nx = decide_and_validate(ctx, cases_by_id, results, entry_index, quick, rng)
+    nlines, nx = decide_and_validate(ctx, cases_by_id, results, entry_index, entries, quick, rng)
     distinct = {(r["id"], r["u"]) for r in results if nontrivial(r)}
     samples = []
     for r in results:
@@ -330,7 +411,7 @@ def run(ctx):
                 "semantic subgraph simulators; distinct by (case hash, universe); non-trivial = the gateway contacted at least two different subgraphs",
         "samples": samples,
         "catalog_entries": [e["name"] for e in entries],
-        "per_entry": stats,
+        "generated_and_replayed": stats,
         "subgraph_exchanges_validated": nx,
         "calibration_items_compared": ncal,
         "exhaustive": False,
